@@ -9,7 +9,7 @@ MODULES = ["PdsVerif.Props.StftTie", "PdsVerif.Props.C02"]
 MODEL_MODULES = ["PdsVerif.Model.StftDrv"]
 REQUIRED = ["PdsVerif.StftTie." + n for n in ["full_pad_left_eq", "full_short_eq", "full_num_frames_eq", "full_pad_right_eq", "fin_pad_left_eq", "fin_num_frames_eq", "chunk_frame_length_eq", "chunk_num_frames_eq", "chunk_first_pad_eq", "torch_arith_eq_numpy", "torch_no_frame_eq"]] + ["PdsVerif.C02." + n for n in [
     "full_short", "full_count", "full_frame_spec", "full_frames_length", "frame_origin", "walk_covers",
-    "walk_idx_in_range", "walk_bins_distinct", "full_spectrum_sum", "walk_sum_eq_full_spectrum", "walk_real_within_half", "real_doubling", "default_len_bin"]]
+    "walk_idx_in_range", "walk_bins_distinct", "full_spectrum_sum", "walk_sum_eq_full_spectrum", "read_eq_full_bin", "coefficient_eq_full_dft_sum", "walk_real_within_half", "real_doubling", "default_len_bin"]]
 
 def translate(repo):
     """framing arithmetic of compute.py / torch.py -> Generated/StftConsts.lean (theorems: Props/StftTie.lean)"""
@@ -25,7 +25,8 @@ RULE = (
     "full-spectrum evaluation. Distinct by full parameter tuple; trivial = empty result."
 )
 TRUSTED = [
-    "np.fft.rfft is the DFT and a real signal's spectrum is Hermitian (X[D-b] = conj X[b])",
+    "np.fft.rfft returns bins 0..D//2 of NumPy's documented DFT X[k] = sum_n x[n] exp(-2 pi i k n / D) of the zero-padded real frame "
+    "(Hermitian symmetry X[D-b] = conj X[b] is no longer trusted: Dft.dft_mirror, used by read_eq_full_bin / coefficient_eq_full_dft_sum)",
     "np.pad 'symmetric' semantics as modelled (symIdx); tracer components SpecBank / DCBank / IntWindow",
 ]
 ASSUMPTIONS = [
@@ -41,7 +42,7 @@ LEVEL_TEXT = (
     "library banks checked against an independent full-spectrum oracle."
 )
 LEVEL_NOTE = (
-    "Trusted: rfft = DFT, Hermitian symmetry, np.pad symmetric, tracer banks. Partial: log/energy formulas, window "
+    "Trusted: rfft = the documented DFT (Hermitian symmetry is proved), np.pad symmetric, tracer banks. Partial: log/energy formulas, window "
     "values and float round-off are oracle-tested only; real_doubling assumes zero DC/Nyquist taps."
 )
 TECHNIQUE = "Lean 4 proofs (walk = spec by induction with fuel; framing closed form) + exact-integer tracer correspondence"
